@@ -602,7 +602,10 @@ def refusal_path(ctx):
             from Pyro5 import socketutil
             conn = socketutil.SocketConnection(s)
             socks.append(conn)          # keep it alive: SocketConnection closes its socket when collected
-            msg = protocol.recv_stub(conn, [protocol.MSG_CONNECTOK, protocol.MSG_CONNECTFAIL])
+            try:
+                msg = protocol.recv_stub(conn, [protocol.MSG_CONNECTOK, protocol.MSG_CONNECTFAIL])
+            except (errors.PyroError, OSError) as e:      # closed without an answer
+                return None, "no reply: " + type(e).__name__
             payload = serializers.serializers_by_id[msg.serializer_id].loads(msg.data)
             return msg.type, payload
         c1 = connect()
